@@ -127,6 +127,32 @@ Theorem C10_none_on_either_read_no_header :
 Proof. exact @none_on_either_read_no_header. Qed.
 Print Assumptions C10_none_on_either_read_no_header.
 
+(* ---- pairing at LATCH time ------------------------------------------------------------------ *)
+(* The key keeper only ever sends the actor WHOLE key documents: the document found in the key file
+   selected by the guid the host reports ([LatchLocal], whatever guid that document carries), or the
+   document the host answered to the acquire call ([LatchAcquired]), or a clear.  If every document in
+   the key folder and every document the host hands out is an ISSUED key, then -- for every sequence
+   of polls, any number of concurrent signing call sites and every schedule -- every authorization
+   header pairs the id of an issued document with the MAC under THAT document's secret. *)
+Theorem C10_latch_pairing :
+  forall (M : Type) (mac : bytes -> bytes -> M) (issued : list key) f ls k0 rs t r sched l input g m,
+  (forall n d, In (n, d) f -> In d issued) ->
+  (forall d, In (LatchAcquired d) ls -> In d issued) ->
+  (forall k, k0 = Some k -> In k issued) ->
+  let ps := keeper (latch_ops f ls) :: map (fun r => signer0 (route_reads r)) rs in
+  nth_error ps t = Some (signer0 (route_reads r)) ->
+  result_of (run (init (w_init k0) ps) sched) t = Some l ->
+  header mac input l = Some (g, m) ->
+  exists k, In k issued /\ guid k = g /\ m = mac (value k) input.
+Proof. exact latch_pairing. Qed.
+Print Assumptions C10_latch_pairing.
+
+(* non-vacuity: the file G2.key holds the document of (G1, K1): the slot gets (G1, K1), whole *)
+Example C10_latch_nonvacuous :
+  latch_run [([2], k1)] None [LatchLocal [2]; LatchAcquired k2; LatchClear] =
+    [Some (guid k1, value k1); Some (guid k2, value k2); None].
+Proof. vm_compute. reflexivity. Qed.
+
 (* ---- meaning of the ghost state ------------------------------------------------------------- *)
 (* the slot's contents over time are exactly the initial content followed by the arguments of the
    SetKey messages in the order the actor processed them, and the epoch counts them *)
